@@ -1441,6 +1441,11 @@ func (l *ChainedSeqContext3) apply(ctx *Context, a, b int) int {
 	next := p
 
 	glyphsNeeded = len(l.Lookahead)
+	// The input sequence is confined to positions before b, the lookahead
+	// sequence is not.
+	for p < len(seq) && p+glyphsNeeded <= len(seq) && !keep.Keep(seq[p].GID) {
+		p++
+	}
 	for _, cov := range l.Lookahead {
 		if p+glyphsNeeded-1 >= len(seq) || !cov[seq[p].GID] {
 			ctx.scratch = matchPos // return the scratch space
